@@ -139,7 +139,7 @@ reg("C09", harness="c09_invert", level="exploration", deadline=(300, 1800),
          "groups completed; evaluations = inversions or determinants compared with the reference.")
 
 
-reg("C01", harness="c01_deflate", level="exploration", deadline=(400, 2400), extra_src=["ref/ref_inflate.c"],
+reg("C01", harness="c01_deflate", level="exploration", deadline=(900, 2400), extra_src=["ref/ref_inflate.c"],
     technique="bounded-exhaustive enumeration of the full parameter product x simulated CPU levels x named input families, decoded by two independent decoders",
     level_text="Full product level x flush x wrapper x hist_bits x Huffman-table choice x level_buf size x API (one-shot, streaming one call, "
                "streaming 97/61-byte chunks) x 7 simulated CPU levels over the SHAPES family (~250 designed inputs) and, with a reduced "
@@ -186,7 +186,7 @@ ENGINES.append({"name": "explore", "path": "engine/explore.h", "serves_propertie
 ENGINES.append({"name": "simcpu", "path": "engine/simcpu.asm", "serves_properties": ["C16", "C01", "C02", "C03", "C04", "C08", "C13", "C20"],
                 "kind_free_text": "cpuid/xgetbv inside the real resolvers answered by the harness (nasm pre-include); all dependency-closed configurations enumerated"})
 
-reg("C07", harness="c07_stream", level="model_checking", deadline=(500, 2400), extra_src=["ref/ref_inflate.c"], engine="explore",
+reg("C07", harness="c07_stream", level="model_checking", deadline=(1000, 2400), extra_src=["ref/ref_inflate.c"], engine="explore",
     technique="explicit-state model checking of the real streaming codecs: DFS over all call histories from chunk/flush alphabets with state-image deduplication, plus single-split closure and uniform schedules",
     level_text="The state graph of the REAL isal_inflate (126 (in,out) choices per call) and isal_deflate (420 choices: in x out x flush x eos "
                "timing) is explored exhaustively with deduplication on the byte image of the context for short streams/inputs x levels x wrappers "
@@ -225,7 +225,7 @@ reg("C14", harness="c14_flush", level="model_checking", deadline=(540, 2400), ex
          "(input,level,cpu) position sweeps and (A,B) pairs completed.")
 
 
-reg("C10", harness="c10_bound", level="model_checking", deadline=(360, 1800), extra_src=["ref/ref_inflate.c"], engine="explore",
+reg("C10", harness="c10_bound", level="model_checking", deadline=(720, 1800), extra_src=["ref/ref_inflate.c"], engine="explore",
     technique="bounded-exhaustive sweep of every avail_out value around and below the documented bound with guard pages + explicit-state exploration of all output-chunk sequences for termination + invalid-parameter enumeration",
     level_text="(i) one-shot compression for all strings over {00,a,b} up to length 4 (6) and the SHAPES/BIG inputs x levels x wrappers x flush x 3 CPU "
                "levels with EVERY avail_out from 0 to bound+16 (window around the bound for long inputs); the output buffer ends at an "
@@ -263,7 +263,7 @@ reg("C06", harness="c06_mutants", level="fault_enumeration", deadline=(360, 2400
          "VALID (truncated or invalid); distinct_nontrivial counts distinct such candidates (hash of bytes+mode).")
 
 
-reg("C11", harness="c11_checksum", level="fault_enumeration", deadline=(300, 2400), extra_src=["ref/ref_inflate.c"],
+reg("C11", harness="c11_checksum", level="fault_enumeration", deadline=(600, 2400), extra_src=["ref/ref_inflate.c"],
     technique="complete single-bit/byte corruption and truncation closure at every offset (header, body, trailer) of wrapped seed streams x all drivers x kernels, judged by the independent decoder incl. its own CRC-32/Adler-32; producer trailers verified for every chunking",
     level_text="Verifier: seeds in gzip / zlib / *_NO_HDR_VER framing (empty, stored, fixed, dynamic payloads; a payload whose CRC-32 contains a zero "
                "byte; a gzip header with FEXTRA+FNAME+FCOMMENT+FHCRC) are closed under every truncation, every single-bit flip and {00,FF,+1} "
@@ -302,7 +302,7 @@ reg("C19", harness="c19_headers", level="model_checking", deadline=(300, 1500), 
          "transition = one real isal_read_gzip_header call; distinct_nontrivial = distinct headers written + reader graphs completed.")
 
 
-reg("C18", harness="c18_huff", level="exploration", deadline=(300, 1800), extra_src=["ref/ref_inflate.c"],
+reg("C18", harness="c18_huff", level="exploration", deadline=(600, 1800), extra_src=["ref/ref_inflate.c"],
     technique="bounded-exhaustive enumeration of histograms (all weight assignments over symbol subsets, depth-breaker families, collector outputs) with independent re-parse of the stored header and entry-by-entry decode of the packed tables; set_hufftables tried at every state of explored level-0 graphs",
     level_text="For 12 symbol subsets mixing literal/EOB/length/distance positions ALL 8^5 (8^6) weight assignments from {0,1,2,2^10,2^20,2^30,2^43,"
                "2^44-1}, Fibonacci and power-of-two prefixes (17..40 lit/len x 16..30 distance symbols), constants, single symbols and histograms "
@@ -345,7 +345,7 @@ ENGINES.append({"name": "pcall", "path": "engine/pcall.S", "serves_properties": 
 ENGINES.append({"name": "sched", "path": "engine/vsched.h", "serves_properties": ["C15"],
                 "kind_free_text": "hook-free serialising scheduler: library-owned writable memory is PROT_NONE, every access faults, W-granule accesses are scheduling points, the instruction is single-stepped (TF); stateless DFS over schedules with iterative preemption bounding"})
 
-reg("C15", harness="c15_reentrant", level="model_checking", deadline=(480, 2400), extra_src=["ref/ref_inflate.c"], engine="sched",
+reg("C15", harness="c15_reentrant", level="model_checking", deadline=(720, 2400), extra_src=["ref/ref_inflate.c"], engine="sched",
     technique="stateless model checking of thread interleavings under a controlled scheduler over page-fault-intercepted accesses to library-owned memory (all interleavings for single-slot cold starts, preemption-bounded for multi-slot), plus write-monitor, pre-fill and reuse-history enumeration",
     level_text="(b) For each of the 26 public dispatched entry points, 2 and 3 threads make their first call concurrently and ALL interleavings of "
                "their accesses to library-owned writable memory are executed on the real code (1680 schedules for 3 threads) under real CPUID and "
@@ -366,7 +366,7 @@ reg("C15", harness="c15_reentrant", level="model_checking", deadline=(480, 2400)
          "distinct_nontrivial = explorations, monitored levels and distinct compared outputs.")
 
 
-reg("C05", harness="c05_memory", level="fault_enumeration", deadline=(600, 3000), extra_src=["ref/ref_inflate.c"],
+reg("C05", harness="c05_memory", level="fault_enumeration", deadline=(1500, 3000), extra_src=["ref/ref_inflate.c"],
     technique="enumeration of (entry point x variant x length x placement) with every buffer flush against inaccessible pages, read-only inputs, per-chunk mappings revoked on recycle; portable-C build under AddressSanitizer; NDEBUG build",
     level_text="Every data-plane call is made with each source/destination/table/level buffer exactly sized and ending (or starting) at a "
                "PROT_NONE page, inputs mapped read-only, canaries on the other side: one-shot and single-call codecs over the SHAPES inputs x levels x "
